@@ -40,10 +40,14 @@ func checkC09(c *Check) {
 	ks := []int64{-1, 1, 2, 3, 4, 5, 6, 7, 8, 9, 10, 11, 12, 13, 14, 15, 16, 17, 18, 19, 20, 23, 29, 31, 37, 41, 53, 64, 65, 97, 127, 128, 129, 200, 255, 256, 257, 400, 1000, 1023, 1024, 1025}
 	if c.Tier == "thorough" {
 		ks = []int64{-1}
-		for k := int64(1); k <= 1300; k++ {
+		// (fitted to what Trace_VM validates in a few minutes: about 2.7 million recorded instructions)
+		for k := int64(1); k <= 400; k++ {
 			ks = append(ks, k)
 		}
-		ks = append(ks, 2047, 2048, 2049, 4096, 4097, 5000, 10000, 30000)
+		for k := int64(401); k <= 1300; k += 53 {
+			ks = append(ks, k)
+		}
+		ks = append(ks, 2047, 2048, 2049, 4096, 4097, 5000, 10000)
 	}
 	var progs []*progDump
 	var events []traceEvent
